@@ -52,7 +52,7 @@ func c20Child() {
 	for _, sc := range scs {
 		r := goroutines
 		n := rounds
-		if sc.impl == "pairing" || sc.impl == "bls" || strings.HasSuffix(batch, "-gt") {
+		if strings.HasPrefix(sc.impl, "pairing") || sc.impl == "bls" || strings.HasSuffix(batch, "-gt") {
 			n = rounds/8 + 1 // pairings and GT exponentiations are slow under the race detector
 		}
 		enc.Encode(raceRun(sc, r, n))
@@ -205,8 +205,17 @@ func runC20(c *kc.Ctx) {
 		for _, o := range r.outs {
 			tid := o.res.Impl + "|" + o.res.Method // key into the write-set table
 			id := tid
-			if o.res.Variant != "" && o.res.Variant != o.res.Impl {
+			if o.res.Variant != "" && o.res.Variant != o.res.Impl && !strings.HasSuffix(o.res.Impl, o.res.Variant) {
 				id = tid + "|" + o.res.Variant // finding key: the instance it ran on
+			}
+			// One root cause, one key: every race / wrong result that comes from the in-place normalize()
+			// of edwards25519vartime (directly, or through a scheme that marshals a shared key of that
+			// group) is reported under "<instance>|normalize".
+			if strings.HasPrefix(o.res.Variant, "ed25519vt-") &&
+				(class[tid] == "sharedWrite" || strings.Contains(o.first, ").normalize()") || o.res.Impl != o.res.Variant) {
+				if o.races > 0 || o.res.Mismatches > 0 || o.res.Panics > 0 {
+					id = o.res.Variant + "|normalize"
+				}
 			}
 			cls, known := class[tid]
 			c.Eval(o.res.Calls)
@@ -238,9 +247,9 @@ func runC20(c *kc.Ctx) {
 				}
 				c.Violation(id+":data-race", fmt.Sprintf("%s %s on shared objects: %d data race report(s) from the Go race detector (table class: %s); %s", o.res.Impl, o.res.Method, o.races, cls, decTrunc(o.first)), rep)
 			case cls == "sharedWrite":
-				c.Disagree(id, "no-race", cls, r.batch)
-				c.DisChecked(1)
-				c.Unshown("correspondence:"+id+":expected-race-not-seen", "the table says the method writes shared memory but the detector saw no race", rep)
+				// the table may over-approximate (that is sound for the theorem, whose hypothesis excludes
+				// the entry); e.g. after the corresponding fix has landed
+				c.CountKind("sharedWrite-entry-without-race:" + tid)
 			}
 			if bad {
 				c.Violation(id+":result-differs", fmt.Sprintf("%s %s: %d of %d concurrent calls returned a result different from the sequential one (%d panics); %s", o.res.Impl, o.res.Method, o.res.Mismatches, o.res.Calls, o.res.Panics, o.res.Sample), rep)
